@@ -27,12 +27,25 @@ func genPersist(repo, out string) {
 	b := parse(filepath.Join(repo, "pkg/state/impl/store/bolt/namespaced.go"))
 
 	loadedOnlyOnSuccess, loadInjects := false, false
+	loadUnderMutex, loadRecheck := false, false
 
 	if fd := method(f, "State", "loadStore"); fd != nil && fd.Body != nil {
 		loadAt, storeAt, stores := -1, -1, 0
+		lockAt, recheckAt, unlocks := -1, -1, 0
 
 		for i, st := range fd.Body.List {
 			s := src(st)
+
+			// `st.storeMu.Lock()` immediately followed by `defer st.storeMu.Unlock()`, both top-level statements
+			if s == "st.storeMu.Lock()" && lockAt < 0 && i+1 < len(fd.Body.List) && src(fd.Body.List[i+1]) == "defer st.storeMu.Unlock()" {
+				lockAt = i
+			}
+
+			// `if st.loaded.Load() { return nil }` after the lock
+			if is, ok := st.(*ast.IfStmt); ok && is.Init == nil && is.Else == nil && src(is.Cond) == "st.loaded.Load()" &&
+				len(is.Body.List) == 1 && src(is.Body.List[0]) == "return nil" && lockAt >= 0 && i > lockAt+1 {
+				recheckAt = i
+			}
 
 			if is, ok := st.(*ast.IfStmt); ok && is.Init != nil && strings.HasPrefix(src(is.Init), "err := st.store.Load(ctx, func(") &&
 				src(is.Cond) == "err != nil" && is.Else == nil {
@@ -67,6 +80,18 @@ func genPersist(repo, out string) {
 		})
 
 		loadedOnlyOnSuccess = loadAt >= 0 && storeAt > loadAt && stores == 1
+
+		// no other Unlock anywhere in the function (the mutex is held to the end)
+		ast.Inspect(fd, func(n ast.Node) bool {
+			if c, ok := n.(*ast.CallExpr); ok && strings.HasSuffix(src(c.Fun), ".Unlock") {
+				unlocks++
+			}
+
+			return true
+		})
+
+		loadUnderMutex = lockAt >= 0 && loadAt > lockAt+1 && storeAt > lockAt+1 && unlocks == 1
+		loadRecheck = loadUnderMutex && recheckAt > lockAt+1 && recheckAt < loadAt
 	}
 
 	loadGuards := true
@@ -129,6 +154,10 @@ func genPersist(repo, out string) {
 
 	l.line("/-- `State.loadStore` sets `loaded` only after `store.Load` returned nil -/")
 	l.line("def loadedOnlyOnSuccess : Bool := %s", leanBool(loadedOnlyOnSuccess))
+	l.line("/-- `loadStore`: `storeMu.Lock(); defer storeMu.Unlock()` precede the Load and the Store of `loaded`, no other Unlock -/")
+	l.line("def loadUnderMutex : Bool := %s", leanBool(loadUnderMutex))
+	l.line("/-- `loadStore`: `if st.loaded.Load() { return nil }` stands between the Lock and the Load -/")
+	l.line("def loadRecheckUnderLock : Bool := %s", leanBool(loadRecheck))
 	l.line("/-- the Load handler injects every resource into the collection of its bucket's type -/")
 	l.line("def loadInjects : Bool := %s", leanBool(loadInjects))
 	l.line("/-- every method of `inmem.State` calls `loadStore` first and returns its error -/")
